@@ -20,7 +20,7 @@ CONFIGS = {
 }
 SIM = {"num": 4000, "depth": 40}
 
-SAMPLE = {"quick": 90000, "thorough": None}
+SAMPLE = {"quick": 60000, "thorough": None}
 
 
 def _norm_al(al):
